@@ -180,6 +180,8 @@ fn run(args: &[String]) -> Result<(), String> {
         "C05" | "C06" | "C10" => with_n!(n, [faults::fault_check], &prop, &o, &mut rep),
         "C13" => c13::c13_check(n, &o, &mut rep),
         "C19" => c19::c19_check(n, &o, &mut rep),
+        "C14" | "C16" if n == 300 => io::io_large::<300>(&prop, &mut rep),
+        "C14" | "C16" if n == 1024 => io::io_large::<1024>(&prop, &mut rep),
         "C14" => with_n!(n, [io::c14_check], &o, &mut rep),
         "C16" => with_n!(n, [io::c16_check], &o, &mut rep),
         "C04" => with_n!(n, [spaces::c04_check], &o, &mut rep),
@@ -266,10 +268,13 @@ fn replay(args: &[String]) -> Result<i32, String> {
         _ if case.act == "zst" => with_n!(n, [zst::replay_zst], &case),
         _ if case.act == "huge-full" => c19::replay_c19(&case),
         "C01" if case.extra == "io" => with_n!(n, [io::replay_io], &case),
+        "C17" if case.extra == "io-alloc" => with_n!(n, [io::replay_io], &case),
         "C01" | "C02" | "C03" | "C11" | "C17" | "C20" => with_n!(n, [checks::replay_bfs], &case),
         "C05" | "C06" | "C10" => with_n!(n, [faults::replay_fault], &case),
         "C13" => c13::replay_c13(&case),
         "C19" => c19::replay_c19(&case),
+        "C14" | "C16" if n == 300 => io::replay_io::<300>(&case),
+        "C14" | "C16" if n == 1024 => io::replay_io::<1024>(&case),
         "C14" | "C16" => with_n!(n, [io::replay_io], &case),
         "C04" => with_n!(n, [spaces::replay_c04], &case),
         "C07" => with_n!(n, [spaces::replay_c07], &case),
